@@ -122,6 +122,29 @@ impl Ord for Keyed {
     }
 }
 
+/// a user-defined fallible whose inspection is counted: each produced fallible is asked
+/// `has_value` once and, if it has one, `value` once
+static HAS_CALLS: std::sync::atomic::AtomicUsize = std::sync::atomic::AtomicUsize::new(0);
+static VAL_CALLS: std::sync::atomic::AtomicUsize = std::sync::atomic::AtomicUsize::new(0);
+struct Maybe(Option<i64>);
+impl Fallible<i64> for Maybe {
+    fn value(self) -> i64 {
+        VAL_CALLS.fetch_add(1, std::sync::atomic::Ordering::SeqCst);
+        self.0.unwrap()
+    }
+    fn has_value(&self) -> bool {
+        HAS_CALLS.fetch_add(1, std::sync::atomic::Ordering::SeqCst);
+        self.0.is_some()
+    }
+}
+fn fallible_counts<R>(f: impl FnOnce() -> R) -> (usize, usize, R) {
+    use std::sync::atomic::Ordering::SeqCst;
+    HAS_CALLS.store(0, SeqCst);
+    VAL_CALLS.store(0, SeqCst);
+    let r = f();
+    (HAS_CALLS.load(SeqCst), VAL_CALLS.load(SeqCst), r)
+}
+
 fn pstr(p: Params) -> String {
     format!("{:?}/{:?}", p.num_threads, p.chunk_size)
 }
@@ -151,6 +174,25 @@ fn extras(data: &[i64], out: &mut Vec<String>) -> usize {
         n += 1;
         if got != want {
             out.push(format!("MISMATCH Keyed nt=1 cs={} term=seq.min_by_key got={:?} want={:?}", cs, got, want));
+        }
+    }
+    // a user-defined Fallible in filter_map: inspected exactly once per produced fallible
+    let nsome = data.iter().filter(|x| **x % 3 != 0).count();
+    for (nt, cs) in [(1usize, 1usize), (1, 4), (3, 1), (3, 4), (2, 64), (0, 0)] {
+        let mk = || data.par().num_threads(nt).chunk_size(cs).filter_map(|x| Maybe(if *x % 3 != 0 { Some(*x) } else { None }));
+        let runs: Vec<(&str, (usize, usize, usize))> = vec![
+            ("collect_vec", { let (h, v, r) = fallible_counts(|| mk().collect_vec()); (h, v, r.len()) }),
+            ("collect_x", { let (h, v, r) = fallible_counts(|| mk().collect_x()); (h, v, r.into_iter().count()) }),
+            ("count", { let (h, v, r) = fallible_counts(|| mk().count()); (h, v, r) }),
+            ("reduce", { let (h, v, r) = fallible_counts(|| mk().reduce(|a, b| a.wrapping_add(b))); (h, v, r.is_some() as usize) }),
+            ("filter.collect_vec", { let (h, v, r) = fallible_counts(|| mk().filter(|x| *x % 2 == 0).collect_vec()); (h, v, r.len()) }),
+        ];
+        for (name, (h, v, _)) in runs {
+            n += 1;
+            if h != data.len() || v != nsome {
+                out.push(format!("MISMATCH Fallible nt={} cs={} term=fallible.{} got=has_value:{}/value:{} want=has_value:{}/value:{}",
+                                 nt, cs, name, h, v, data.len(), nsome));
+            }
         }
     }
     // defaults are Auto/Auto wherever the computation is built: here inside a closure that runs on the
